@@ -376,6 +376,11 @@ class Enc:
             return ("sat", unescape(w))
         return ("unknown", None)
 
+    def member_with(self, r, positive, extra):
+        """A string in / not in L(r) that also lies in the probe language `extra`, or None."""
+        z3 = self.z3
+        return self.member(z3.Intersect(r, extra) if positive else z3.Union(r, z3.Complement(extra)), positive)
+
     def member(self, r, positive=True):
         """A string in (positive) / not in (negative) L(r), or None."""
         import time
